@@ -16,6 +16,10 @@ import VaxisModel.Spec.Surface
     (`fill` = common style of the cells with empty grapheme, `x` if mixed, `-` if none; `cells` = the
     others as `i=g.w.st` joined by `,`, `-` if none) or `panic:explicit` / `panic:runtime`.
 
+`drawz …` — as `draw` for trees with a list.Dynamic: token `D c|n gap k <k widgets>` (DrawCursor on/off, Gap,
+    the k items Draw drew, in order, each scanned for `Max.Width − gutter` × unbounded).  impl / model: sizes and
+    origins only, `depth:col:row:z:w:h:len` per surface in pre-order.
+
 `render SWxSH <nodes>` — paint a hand-built surface tree as the root surface of a frame on a SW×SH
     screen prefilled with a sentinel, through the hook `VerifC14RenderRoot` (the render call of
     App.Run: `s.render(win.New(0,0,W,H), …)`); model `renderClipped`. nodes as above but
@@ -77,39 +81,80 @@ def parseLine? (s : String) : Option (List Cell) :=
 def parseLines? (s : String) : Option (List (List Cell)) :=
   if s = "~" then some [] else (s.splitOn "/").mapM parseLine?
 
-def parseWidget? : Nat → List String → Option Widget
+mutual
+/-- One widget from the front of the token list; returns the rest. -/
+def parseW : Nat → List String → Option (Widget × List String)
   | 0, _ => none
   | fuel + 1, toks =>
     match toks with
-    | "C" :: rest => (parseWidget? fuel rest).map .center
-    | ["T", m, st, _, lines] => do
+    | "C" :: rest => do
+        let (w, r) ← parseW fuel rest
+        some (.center w, r)
+    | "T" :: m :: st :: _ :: lines :: rest => do
         let st ← st.toNat?
         let ls ← parseLines? lines
-        some (.text (m == "h") st ls)
-    | ["R", m, _, lines] => do
+        some (.text (m == "h") st ls, rest)
+    | "R" :: m :: _ :: lines :: rest => do
         let ls ← parseLines? lines
-        some (.rich (m == "h") ls)
-    | ["F", _, _, chars] => do
+        some (.rich (m == "h") ls, rest)
+    | "F" :: _ :: _ :: chars :: rest => do
         let l ← if chars = "~" then some [] else parseLine? chars
-        some (.field l)
-    | ["B", st, _, lines] => do
+        some (.field l, rest)
+    | "B" :: st :: _ :: lines :: rest => do
         let st ← st.toNat?
         let ls ← parseLines? lines
-        some (.button st ls)
+        some (.button st ls, rest)
+    | "D" :: cur :: gap :: k :: rest => do
+        let gap ← gap.toInt?
+        let k ← k.toNat?
+        let (ws, r) ← parseWs fuel k rest
+        some (.dynamic (cur == "c") gap ws, r)
     | _ => none
+def parseWs : Nat → Nat → List String → Option (Widgets × List String)
+  | _, 0, rest => some (.nil, rest)
+  | 0, _ + 1, _ => none
+  | fuel + 1, k + 1, rest => do
+      let (w, r) ← parseW fuel rest
+      let (ws, r2) ← parseWs fuel k r
+      some (.cons w ws, r2)
+end
 
-/-- Names of the nested widgets, outermost first (one per surface depth). -/
-def widgetKinds : Widget → List String
-  | .text hard _ _ => [if hard then "text-hard" else "text-soft"]
-  | .rich hard _ => [if hard then "richtext-hard" else "richtext-soft"]
-  | .field _ => ["textfield"]
-  | .center c => "center" :: widgetKinds c
-  | .button _ _ => ["button", "text-soft"]
+def parseWidget? (toks : List String) : Option Widget :=
+  match parseW (toks.length + 1) toks with
+  | some (w, []) => some w
+  | _ => none
 
-def hasBoundedOnly : Widget → Bool
-  | .center _ => true
-  | .button _ _ => true
-  | _ => false
+/-- The oracle's reading of the documentation: Center, Button and list.Dynamic "must have bounded
+constraints" (they panic otherwise); Center and Button hand their constraint on, Dynamic hands its
+items `Max.Width − gutter` × unbounded.  `true` = some widget of the tree that must have bounded
+constraints receives an unbounded one, so an explicit panic is the documented outcome. -/
+def mustPanic : Nat → Widget → Nat → Nat → Bool
+  | 0, _, _, _ => false
+  | _ + 1, .text .., _, _ => false
+  | _ + 1, .rich .., _, _ => false
+  | _ + 1, .field .., _, _ => false
+  | fuel + 1, .center ch, mw, mh => mw == 65535 || mh == 65535 || mustPanic fuel ch mw mh
+  | _ + 1, .button .., mw, mh => mw == 65535 || mh == 65535
+  | fuel + 1, .dynamic cur _ kids, mw, mh =>
+      mw == 65535 || mh == 65535 ||
+        kids.toList.any fun k => mustPanic fuel k ((mw + 65536 - (if cur then 2 else 0)) % 65536) 65535
+
+/-- Expected surface nodes in pre-order: (name, the Max that surface must respect, is-a-centring-parent).
+The cursor surface Dynamic wraps its first item in is `Max.Width` wide and as high as the item. -/
+def expectedNodes : Nat → Widget → Nat → Nat → List (String × Nat × Nat × Bool)
+  | 0, _, _, _ => []
+  | _ + 1, .text hard _ _, mw, mh => [(if hard then "text-hard" else "text-soft", mw, mh, false)]
+  | _ + 1, .rich hard _, mw, mh => [(if hard then "richtext-hard" else "richtext-soft", mw, mh, false)]
+  | _ + 1, .field _, mw, mh => [("textfield", mw, mh, false)]
+  | fuel + 1, .center c, mw, mh => ("center", mw, mh, true) :: expectedNodes fuel c mw mh
+  | _ + 1, .button _ _, mw, mh => [("button", mw, mh, true), ("text-soft", mw, mh, false)]
+  | fuel + 1, .dynamic cur _ kids, mw, mh =>
+      let cw := (mw + 65536 - (if cur then 2 else 0)) % 65536
+      let each := kids.toList.map fun k => expectedNodes fuel k cw 65535
+      let each := match cur, each with
+        | true, first :: rest => (("list-cursor", mw, 65535, false) :: first) :: rest
+        | _, l => l
+      ("dynamic", mw, mh, false) :: each.flatten
 
 structure Node where
   depth : Nat
@@ -143,6 +188,11 @@ def dumpSurface (s : Surface) : String :=
   ";".intercalate ((flattenS 0 0 0 0 s).map fun (d, c, r, z, n) =>
     s!"{d}:{c}:{r}:{z}:{n.w.toNat}:{n.h.toNat}:{n.buf.length}:{fillOf n.buf}:{sparse n.buf}")
 
+/-- Sizes and origins only (draw ops with a Dynamic: `drawz`). -/
+def dumpSizes (s : Surface) : String :=
+  ";".intercalate ((flattenS 0 0 0 0 s).map fun (d, c, r, z, n) =>
+    s!"{d}:{c}:{r}:{z}:{n.w.toNat}:{n.h.toNat}:{n.buf.length}")
+
 def parseNode? (s : String) : Option Node :=
   match s.splitOn ":" with
   | d :: c :: r :: z :: w :: h :: len :: rest => do
@@ -150,48 +200,54 @@ def parseNode? (s : String) : Option Node :=
              w := ← w.toNat?, h := ← h.toNat?, len := ← len.toNat?, rest := ":".intercalate rest }
   | _ => none
 
-def drawModel (c : Ctx) (w : Widget) : String :=
+def drawModel (sizesOnly : Bool) (c : Ctx) (w : Widget) : String :=
   match draw w c with
   | .error .explicit => "panic:explicit"
   | .error _ => "panic:runtime"
-  | .ok s => dumpSurface s
+  | .ok s => if sizesOnly then dumpSizes s else dumpSurface s
 
 /-- Parent of node `i` in a pre-order list with depths: the nearest earlier node of depth-1. -/
-def parentOf (nodes : List Node) (i : Nat) : Option Node :=
+def parentIdx (nodes : List Node) (i : Nat) : Option Nat :=
   match nodes[i]? with
   | none => none
   | some n => if n.depth = 0 then none else
-      ((nodes.take i).reverse.find? fun p => p.depth + 1 = n.depth)
+      ((List.range i).reverse.find? fun j => match nodes[j]? with
+        | some p => p.depth + 1 = n.depth
+        | none => false)
 
 def drawVerdict (c : Ctx) (w : Widget) (impl : String) : String :=
-  let unb := c.maxW == unbounded || c.maxH == unbounded
+  let fuel := 64
+  let must := mustPanic fuel w c.maxW.toNat c.maxH.toNat
   if impl = "panic:explicit" then
-    if unb ∧ hasBoundedOnly w then "ok" else "FAIL panic: explicit panic for a constraint the widget must accept"
-  else if impl.startsWith "panic" then s!"FAIL panic: {(widgetKinds w).headD "?"} Draw panicked"
+    if must then "ok" else "FAIL panic: explicit panic although every widget that must have bounded constraints has them"
+  else if impl.startsWith "panic" then s!"FAIL panic: Draw panicked"
   else
   match (impl.splitOn ";").mapM parseNode? with
   | none => "FAIL unreadable impl result"
   | some nodes =>
-    let kinds := widgetKinds w
-    let maxW := c.maxW.toNat
-    let maxH := c.maxH.toNat
+    let exp := expectedNodes fuel w c.maxW.toNat c.maxH.toNat
+    if nodes.length ≠ exp.length then
+      s!"FAIL shape: {nodes.length} surfaces, the widget tree has {exp.length}"
+    else
     let errs := (List.range nodes.length).filterMap fun i =>
-      match nodes[i]? with
-      | none => none
-      | some n =>
-        let kind := kinds.getD n.depth "?"
+      match nodes[i]?, exp[i]? with
+      | some n, some (kind, maxW, maxH, _) =>
         -- a zero Surface{} (TextField with a zero constraint) has no buffer at all
         if n.w > maxW ∨ n.h > maxH then
           some s!"FAIL size: {kind} surface {n.w}x{n.h} exceeds max {maxW}x{maxH}"
         else if n.len ≠ n.w * n.h then
           some s!"FAIL buflen: {kind} surface {n.w}x{n.h} has {n.len} cells"
-        else match parentOf nodes i with
+        else match parentIdx nodes i with
           | none => none
-          | some p =>
-            if n.w ≤ p.w ∧ n.h ≤ p.h then
-              if Spec.Surface.centred p.w p.h n.w n.h n.col n.row then none
-              else some s!"FAIL centre: {kind} {n.w}x{n.h} at {n.col},{n.row} in {p.w}x{p.h}"
-            else none
+          | some j =>
+            match nodes[j]?, exp[j]? with
+            | some p, some (_, _, _, true) =>
+              if n.w ≤ p.w ∧ n.h ≤ p.h then
+                if Spec.Surface.centred p.w p.h n.w n.h n.col n.row then none
+                else some s!"FAIL centre: {kind} {n.w}x{n.h} at {n.col},{n.row} in {p.w}x{p.h}"
+              else none
+            | _, _ => none
+      | _, _ => none
     match errs with
     | e :: _ => e
     | [] => "ok"
@@ -299,15 +355,17 @@ def step (line : String) : String :=
     match W.toNat?, H.toNat?, col.toNat?, row.toNat? with
     | some W, some H, some col, some row => s!"{wsModel W H col row}\t{impl}\t{wsVerdict W H col row impl}"
     | _, _, _, _ => "bad-op\tbad-op\tbad-op"
-  | "draw" :: ctx :: toks =>
-    match (ctx.splitOn ",").map (·.toNat?), parseWidget? 8 toks with
-    | [some a, some b, some c, some d], some w =>
-      let ctx : Ctx := { minW := UInt16.ofNat a, minH := UInt16.ofNat b, maxW := UInt16.ofNat c, maxH := UInt16.ofNat d }
-      s!"{drawModel ctx w}\t{impl}\t{drawVerdict ctx w impl}"
-    | _, _ => "bad-op\tbad-op\tbad-op"
   | ["render", dims, nodes] => renderStep .root dims nodes impl
   | ["run", dims, nodes] => renderStep .run dims nodes impl
   | ["bare", dims, nodes] => renderStep .bare dims nodes impl
+  | kind :: ctx :: toks =>
+    if kind = "draw" ∨ kind = "drawz" then
+    match (ctx.splitOn ",").map (·.toNat?), parseWidget? toks with
+    | [some a, some b, some c, some d], some w =>
+      let ctx : Ctx := { minW := UInt16.ofNat a, minH := UInt16.ofNat b, maxW := UInt16.ofNat c, maxH := UInt16.ofNat d }
+      s!"{drawModel (kind = "drawz") ctx w}\t{impl}\t{drawVerdict ctx w impl}"
+    | _, _ => "bad-op\tbad-op\tbad-op"
+    else "bad-op\tbad-op\tbad-op"
   | _ => "bad-op\tbad-op\tbad-op"
 
 def main : IO Unit := lineLoop step
